@@ -1,6 +1,8 @@
 // C12 harness: SmartRotation3D derivative matrices, dRTdAngles, the covariance of operator*(Affine3d, Pose3D),
 // LeastSquares::computeEstimateCovariance — the real classes — plus central finite differences with Richardson
 // extrapolation (long double) of the implementation's own maps, printed after a `|` separator and judged in Python.
+// `lsh.*`: ONE LeastSquares<double> object per case driven through problem sequences (solver reuse), see lean/Drivers/C12.lean.
+#include <memory>
 #include <Eigen/Geometry>
 #include "proto.hpp"
 #include "romea_core_common/geometry/Pose3D.hpp"
@@ -10,8 +12,6 @@
 using namespace romea::core;
 using vp::Toks;
 typedef long double ld;
-
-static void reset() {}
 
 static std::vector<double> floats(const Toks & t, size_t first, size_t n)
 {
@@ -29,6 +29,93 @@ template<typename M> static void emit(std::string & o, const M & m)
   for (int i = 0; i < m.rows(); ++i) { for (int j = 0; j < m.cols(); ++j) { o += (o.empty() ? "" : " ") + vp::fmtD(m(i, j)); } }
 }
 static void emitLd(std::string & o, ld v) { o += " " + vp::fmtD(static_cast<double>(v)); }
+
+// the solver object of the `lsh.*` ops: lives until the next `#case` / `lsh.new`
+static std::unique_ptr<LeastSquares<double>> hs;
+static int hsEst = 0;     // mirror of estimateSize_ (private)
+static int hsN = 0;       // mirror of dataSize_ (private)
+
+static void reset() { hs.reset(); hsEst = 0; hsN = 0; }
+
+static size_t natArg(const std::string & s, size_t lo, size_t hi)
+{
+  uint64_t v = vp::parseU(s);
+  if (v < lo || v > hi) { throw vp::BadOp(); }
+  return static_cast<size_t>(v);
+}
+
+// `lsh.*`: the history ops on one solver object.  Lines the C++ could only answer with undefined behaviour (index
+// outside the buffers, no object) are bad-op on both sides.
+static std::string handleHistory(const Toks & t)
+{
+  const std::string & op = t[0];
+  if (op == "lsh.new") {
+    if (t.size() == 2) {
+      size_t e = natArg(t[1], 1, 8);
+      hs.reset(new LeastSquares<double>(e)); hsEst = static_cast<int>(e); hsN = 0; return "ok";
+    }
+    if (t.size() == 3) {
+      size_t e = natArg(t[1], 1, 8), n = natArg(t[2], 0, 64);
+      hs.reset(new LeastSquares<double>(e, n)); hsEst = static_cast<int>(e); hsN = static_cast<int>(n); return "ok";
+    }
+    throw vp::BadOp();
+  }
+  if (!hs) { throw vp::BadOp(); }
+  LeastSquares<double> & ls = *hs;
+  if (op == "lsh.est" && t.size() == 2) {
+    size_t e = natArg(t[1], 1, 8);
+    ls.setEstimateSize(e); hsEst = static_cast<int>(e); return "ok";
+  }
+  if (op == "lsh.size" && t.size() == 2) {
+    size_t n = natArg(t[1], 0, 64);
+    bool g = ls.setDataSize(n); hsN = static_cast<int>(n);
+    return std::string("grew ") + (g ? "1" : "0");
+  }
+  // an allocated design matrix has estimateSize_ columns and as many rows as Y_ (repair 186525a); checked before J_ is touched
+  auto shapeBad = [&]() {
+      return ls.getY().rows() > 0 && (ls.getJ().cols() != hsEst || ls.getJ().rows() != ls.getY().rows());
+    };
+  if (op == "lsh.row" && t.size() >= 2) {
+    uint64_t i = vp::parseU(t[1]);
+    if (t.size() != static_cast<size_t>(hsEst) + 3 || static_cast<long long>(i) >= ls.getY().rows()) { throw vp::BadOp(); }
+    std::vector<double> v(hsEst + 1);
+    for (int c = 0; c <= hsEst; ++c) { v[c] = vp::parseD(t[2 + c]); }
+    if (shapeBad()) { return "shape-mismatch"; }
+    for (int c = 0; c < hsEst; ++c) { ls.getJ()(static_cast<int>(i), c) = v[c]; }
+    ls.getY()(static_cast<int>(i)) = v[hsEst];
+    return "ok";
+  }
+  if (op == "lsh.w" && t.size() == 3) {
+    uint64_t i = vp::parseU(t[1]); double w = vp::parseD(t[2]);
+    if (static_cast<long long>(i) >= ls.getW().rows()) { throw vp::BadOp(); }
+    ls.getW()(static_cast<int>(i)) = w; return "ok";
+  }
+  if (op == "lsh.pre") {
+    // diagonal preconditioner diag(a) with offset b (the property's domain: diagonal preconditioners)
+    if (t.size() != static_cast<size_t>(2 * hsEst) + 1) { throw vp::BadOp(); }
+    Eigen::MatrixXd Ac = Eigen::MatrixXd::Zero(hsEst, hsEst); Eigen::VectorXd Bc(hsEst);
+    for (int j = 0; j < hsEst; ++j) { Ac(j, j) = vp::parseD(t[1 + j]); Bc(j) = vp::parseD(t[1 + hsEst + j]); }
+    ls.setPreconditionner(Ac, Bc); return "ok";
+  }
+  if ((op == "lsh.svd" || op == "lsh.chol" || op == "lsh.wls") && t.size() == 1) {
+    if (hsN > ls.getY().rows()) { throw vp::BadOp(); }
+    if (shapeBad()) { return "shape-mismatch"; }
+    // the estimate itself is C07's subject; here only its effect on the covariance reported afterwards is observed
+    Eigen::VectorXd x;
+    if (op == "lsh.svd") { x = ls.estimateUsingSVD(); } else if (op == "lsh.chol") { x = ls.estimateUsingCholeskyDecomposition(); }
+    else { x = ls.weightedEstimate(); }
+    if (x.rows() != hsEst) { return "bad-shape"; }
+    return "ok";
+  }
+  if (op == "lsh.cov" && t.size() == 2) {
+    double var = vp::parseD(t[1]);
+    Eigen::MatrixXd c = ls.computeEstimateCovariance(var);
+    if (c.rows() != hsEst || c.cols() != hsEst) { return "bad-shape"; }
+    std::string o = "P"; { std::string m; emit(m, c); o += " " + m; }
+    return o;
+  }
+  throw vp::BadOp();
+}
 
 // Richardson-extrapolated central difference of a vector-valued map of one variable:
 // D(h) = (f(x+h) - f(x-h)) / 2h,  result = (4 D(h/2) - D(h)) / 3   (error O(h^4)); differences in long double
@@ -68,6 +155,7 @@ static std::string handle(const Toks & t)
 {
   const std::string & op = t[0];
   std::string o;
+  if (op.compare(0, 4, "lsh.") == 0) { return handleHistory(t); }
   if (op == "smart.d") {
     auto a = floats(t, 1, 3);
     Eigen::Vector3d ang(a[0], a[1], a[2]);
